@@ -5,7 +5,7 @@ from . import common as C
 MANIFEST = dict(
    technique="Lean 4 proof (soundness of the transcribed ToInt64/ToInteger[T]/ToFloat64/ToFloat[T]/ToBool/ToBigInt/To[T] and of the coercing-schema pipeline over all of Int and all dyadic floats) + differential correspondence of that model against pkg/coerce and the gozod/coerce schemas, judged by a math/big oracle",
    text="Theorems c17_int64_sound / c17_integer_sound (all ten integer targets) / c17_bigint_sound prove that a successful coercion returns exactly the value the source denotes and lands in the target's range; c17_int64_err / c17_integer_err prove that NaN, infinite, fractional, out-of-range and negative-to-unsigned sources are errors; c17_int_to_f64_nearest / c17_int_to_f64_exact / c17_f32_no_inf / c17_float64_finite cover float targets (correctly rounded, exact below 2^53, a finite source never becomes Inf); c17_bool_table the truthy table; c17_schema / c17_schema_exact_first the schema pipeline. The hand-written model (of the code after pending/C17-coerce-guards.diff) is tied to /repo by running both on exhaustive 8-bit (thorough: 16-bit) sources and a boundary grid over every (source kind, target) pair, through every helper and through coercing schemas with a check.",
-   note="Trusted: Lean kernel; axioms propext/Classical.choice/Quot.sound only; the Go harness, its math/big oracle and the comparer; strconv.ParseInt/ParseFloat/FormatFloat, big.Int.SetString, strings.TrimSpace/ToLower enter the model as parameters whose results the harness ships with each case (their correctness is assumed, cross-checked against math/big on the generated cases only). amd64 semantics of int64(float). The model is a hand transcription validated on generated cases, not for all inputs. Complex, time and []byte sources and complex/time targets are outside the property and not modelled. Spurious failures (e.g. uint64 values above MaxInt64, +Inf into float32) are allowed by the statement and only counted.",
+   note="Trusted: Lean kernel; axioms propext/Classical.choice/Quot.sound only; the Go harness, its math/big oracle and the comparer; strconv.ParseInt/ParseFloat/FormatFloat, big.Int.SetString, strings.TrimSpace/ToLower enter the model as parameters whose results the harness ships with each case (their correctness is assumed, cross-checked against math/big on the generated cases only). amd64 semantics of int64(float). The model is a hand transcription validated on generated cases, not for all inputs. ToFloat64 of a complex source returns the magnitude (open known finding complex-magnitude, witness theorem complex_magnitude_witness). Time and []byte sources and complex/time targets are outside the property and not modelled. Spurious failures (e.g. uint64 values above MaxInt64, +Inf into float32) are allowed by the statement and only counted.",
    design="DESIGN.md §5 C17, §3.6; notes/C17.md")
 
 MODULES = ["Gozod.Proofs.C17"]
@@ -14,9 +14,9 @@ THEOREMS = [
     "Gozod.C17.c17_int64_err_fractional", "Gozod.C17.c17_int64_err_range", "Gozod.C17.floatToInt64_complete",
     "Gozod.C17.c17_integer_sound", "Gozod.C17.c17_integer_err", "Gozod.C17.c17_integer_err_negative", "Gozod.C17.c17_integer_i64_eq",
     "Gozod.C17.c17_bigint_sound", "Gozod.C17.roundTo_correct", "Gozod.C17.c17_int_to_f64_nearest", "Gozod.C17.c17_int_to_f64_exact",
-    "Gozod.C17.c17_float64_sound", "Gozod.C17.c17_float64_nan_err", "Gozod.C17.c17_float64_finite", "Gozod.C17.c17_f32_no_inf",
+    "Gozod.C17.rneDiv_nearest", "Gozod.C17.roundMag_correct", "Gozod.C17.c17_float64_sound", "Gozod.C17.c17_float64_nan_err", "Gozod.C17.c17_float64_finite", "Gozod.C17.c17_f32_no_inf",
     "Gozod.C17.c17_bool_table", "Gozod.C17.c17_bool_sound", "Gozod.C17.c17_schema", "Gozod.C17.c17_schema_exact_first",
-    "Gozod.C17.c17_schema_int_sound",
+    "Gozod.C17.c17_schema_int_sound", "Gozod.C17.c17_float64_partial", "Gozod.C17.complex_magnitude_witness",
     "Gozod.C17.legacy_int64_wraps_f64", "Gozod.C17.legacy_int64_wraps_f32", "Gozod.C17.legacy_integer_truncates",
     "Gozod.C17.legacy_integer_nan", "Gozod.C17.legacy_not_sound",
 ]
@@ -24,7 +24,7 @@ THEOREMS = [
 def _src(t, i):
     """source kind and the index after the source tokens."""
     k = t[i]
-    n = {"f32": 3, "f64": 3, "bool": 2, "big": 2, "nil": 1, "other": 1, "str": 10}.get(k, 2)
+    n = {"f32": 3, "f64": 3, "bool": 2, "big": 2, "nil": 1, "other": 1, "str": 10, "c128": 4, "c64": 4}.get(k, 2)
     return k, i + n
 
 def parse_op(op):
@@ -38,6 +38,7 @@ def parse_op(op):
 
 def _cls(kind):
     if kind in ("f32", "f64"): return "float"
+    if kind in ("c128", "c64"): return "complex"
     if kind in ("str", "bool", "big", "nil", "other"): return kind
     return "int"
 
@@ -65,6 +66,8 @@ def _reason(p):
 def key(op, impl, M, S):
     p = parse_op(op)
     head = "%s:%s:%s->%s" % (p["mode"], p["helper"], _cls(p["kind"]), _tcls(p["tgt"]))
+    if _cls(p["kind"]) == "complex" and p["tgt"] in ("f32", "f64") and not impl.startswith("panic") and not impl.endswith(" c0"):
+        return "complex-magnitude:" + head      # ToFloat64(complex) is |z| by design: one known class
     if impl.startswith("panic"): return head + ":panic"
     if impl.endswith(" c0"): return head + ":schema-differs-from-plain-on-coerced-value"
     if impl.startswith("ok") and S is not None and S.startswith("err"):
@@ -86,6 +89,9 @@ def _go_src(p):
         e = "math.Float64frombits(%s) /* %r */" % (t[1], _f64(t[1]))
         return "float32(%s)" % e if k == "f32" else e
     if k == "bool": return "true" if t[1] == "1" else "false"
+    if k in ("c128", "c64"):
+        e = "complex(%r, %r)" % (_f64(t[1]), _f64(t[2]))
+        return "complex64(%s)" % e if k == "c64" else e
     if k == "big": return 'func() *big.Int { b, _ := new(big.Int).SetString("%s", 10); return b }()' % t[1]
     if k == "nil": return "nil /* or a nil pointer */"
     if k == "other": return "struct{}{} /* or a slice / map */"
